@@ -7,6 +7,7 @@ package values
 
 import (
 	"fmt"
+	"math"
 
 	adminapi "github.com/onosproject/onos-api/go/onos/config/admin"
 	configapi "github.com/onosproject/onos-api/go/onos/config/v2"
@@ -41,6 +42,10 @@ func GnmiTypedValueToNativeType(gnmiTv *gnmi.TypedValue, modelPath *adminapi.Rea
 	case *gnmi.TypedValue_DecimalVal:
 		return configapi.NewTypedValueDecimal(v.DecimalVal.Digits, uint8(v.DecimalVal.Precision)), nil
 	case *gnmi.TypedValue_FloatVal:
+		// big.NewFloat panics on a NaN
+		if math.IsNaN(float64(v.FloatVal)) {
+			return nil, fmt.Errorf("NaN is not a valid float value")
+		}
 		return configapi.NewTypedValueFloat(float64(v.FloatVal)), nil
 	case *gnmi.TypedValue_LeaflistVal:
 		var typeOpt0 uint64
